@@ -42,7 +42,7 @@ func staticCallee(in ssa.Instruction) *ssa.Function {
 	f := c.StaticCallee()
 	if f == nil && theProg != nil {
 		if _, isB := c.Value.(*ssa.Builtin); !isB {
-			if cands := theProg.Callees(in); len(cands) == 1 && (IsRepoFunc(cands[0]) || cands[0].Synthetic != "") {
+			if cands := theProg.Callees(in); len(cands) == 1 {
 				f = cands[0]
 			}
 		}
